@@ -810,6 +810,15 @@ class RaisingProp:
     def viaprop2(self, *a, **k): return self.prop2.attr(*a, **k)
 class KwOnlyMethod:
     def m(**kwargs): pass
+class AmbiguousTruth:
+    # like an array: asking for its truth value raises
+    def __bool__(self): raise ValueError("truth value ambiguous")
+    def m(self, *args, **kwargs): return g(*args, **kwargs)
+    def plain(self, a, b=1): pass
+    def __call__(self, *args, **kwargs): return g(*args, **kwargs)
+class UnsizedStream:
+    def __len__(self): raise TypeError("length unknown")
+    def m(self, *args, **kwargs): return g(*args, **kwargs)
 class UnhashableCallable:
     __hash__ = None
     def __call__(self, a, *args, **kwargs): return g(*args, **kwargs)
@@ -855,6 +864,7 @@ OBJECTS = [lam, lam2, coro, gen, agen, walrus, matcher, comp, dcomp, starred, gl
            functools.partial(kwstar, 0, 1, 2), functools.partial(kwstar, 0, a=1),
            recur_n, recur_kw, recur_lit, cycle_a, cycle_b, Rec().walk, Rec.walk, functools.partial(recur_n, 3),
            fallback_lam, ifline_lam, forelse_lam, star_of_global, dstar_of_global, RaisingProp().viaprop, RaisingProp().viaprop2, KwOnlyMethod().m, KwOnlyMethod.m,
+           AmbiguousTruth().m, AmbiguousTruth().plain, AmbiguousTruth(), UnsizedStream().m,
            UnhashableCallable(), CallableClass, CallableClass(1), CallableClass2, CallableClass2(),
            functools.partial(starry, kwargs=1), functools.partial(starry, args=1), DeclaredMethod().outer, DeclaredMethod.outer]
 '''
@@ -1293,6 +1303,10 @@ def rt_modprov(req):
             bound = getattr(mod.inst, attr)
             check('C().' + attr, bound, [] if plain_annotate else [raw], False, relaxed=plain_annotate)
         check('Init', mod.Init, [], False, relaxed=True)
+        # ... and what the class-level objects answer is not changed by the bound retrievals made since (order of retrieval)
+        for attr in ('m', 'm1', 'm2', 'm3', 'm4', 'm5'):
+            check('C.%s again' % attr, mod.C.__dict__[attr], [] if attr == 'm3' else [mod.C.__dict__['raw_' + attr]], False, relaxed=attr == 'm3')
+        check('Init.__init__', mod.Init.__dict__['__init__'], [], False, relaxed=True)
         # ... and through a functools.partial object of the bound method: keys = parameters (finding D60)
         for attr in ('m3', 'm4'):
             pobj = functools.partial(getattr(mod.inst, attr), 1)
